@@ -49,7 +49,139 @@ RESUME_LOOP = ("        for offset in range(first, len(buckets)):\n"
                    "                raise TimeSliceExceeded()\n",
                    "                self._resume_point = (prefix, offset + 1)\n                raise TimeSliceExceeded()\n"))
 
+# start_slice split into helpers (the refactor of seeded C27-I): _run_slice() crawls one slice and saves,
+# _sleep_time_after() computes the pause.  SPLIT_* are the three edits of the refactor; RUN_* the bodies of _run_slice.
+SLICE_TRY = ("        try:\n"
+             "            self.start_current_prefix(start_slice)\n"
+             "            finished_cycle = True\n"
+             "        except TimeSliceExceeded:\n"
+             "            finished_cycle = False\n"
+             "        self.save_state()\n")
+SLICE_TAIL = ("            self.sleeping_between_cycles = True\n"
+              "            sleep_time = max(sleep_time, self.minimum_cycle_time)\n"
+              "        else:\n"
+              "            self.sleeping_between_cycles = False\n"
+              "        self.current_sleep_time = sleep_time # for status page\n"
+              "        self.next_wake_time = now + sleep_time\n"
+              "        self.yielding(sleep_time)\n"
+              "        self.timer = reactor.callLater(sleep_time, self.start_slice)\n")
+SLICE_SCHEDULE = ("        self.sleeping_between_cycles = finished_cycle\n"
+                  "        self.current_sleep_time = sleep_time # for status page\n"
+                  "        self.next_wake_time = now + sleep_time\n"
+                  "        self.yielding(sleep_time)\n"
+                  "        self.timer = reactor.callLater(sleep_time, self.start_slice)\n")
+RUN_FAITHFUL = ("        try:\n"
+                "            self.start_current_prefix(start_slice)\n"
+                "            finished_cycle = True\n"
+                "        except TimeSliceExceeded:\n"
+                "            finished_cycle = False\n"
+                "        self.save_state()\n"
+                "        return finished_cycle\n")
+RUN_SLIP = ("        try:\n"
+            "            self.start_current_prefix(start_slice)\n"
+            "        except TimeSliceExceeded:\n"
+            "            return False\n"
+            "        self.save_state()\n"
+            "        return True\n")
+RUN_SAVE_IN_HANDLER = ("        try:\n"
+                       "            self.start_current_prefix(start_slice)\n"
+                       "        except TimeSliceExceeded:\n"
+                       "            self.save_state()\n"
+                       "            return False\n"
+                       "        self.save_state()\n"
+                       "        return True\n")
+RUN_NO_SAVE = ("        try:\n"
+               "            self.start_current_prefix(start_slice)\n"
+               "        except TimeSliceExceeded:\n"
+               "            return False\n"
+               "        return True\n")
+RUN_NO_TRY = ("        self.start_current_prefix(start_slice)\n"
+              "        self.save_state()\n"
+              "        return True\n")
+
+
+def split_slice(run_body, call="        finished_cycle = self._run_slice(start_slice)\n", schedule=SLICE_SCHEDULE, extra=""):
+    """(old, new, edits) of the refactor with the given _run_slice body / call site / scheduling tail."""
+    return (SLICE_TRY, call,
+            [(F, "        this_slice = now - start_slice\n",
+              "        sleep_time = self._sleep_time_after(now - start_slice, finished_cycle)\n" + schedule
+              + "\n    def _run_slice(self, start_slice):\n" + run_body + extra
+              + "\n    def _sleep_time_after(self, this_slice, finished_cycle):\n"),
+             (F, SLICE_TAIL, "            sleep_time = max(sleep_time, self.minimum_cycle_time)\n        return sleep_time\n")])
+
+
+def MS(mid, expect, run_body, note=None, **kw):
+    (old, new, edits) = split_slice(run_body, **kw)
+    return M(mid, F, old, new, expect, edits=edits, note=note or "")
+
+
 MUTANTS = [
+    # ---- C27.3 the slice followed through its helpers (seeded C27-I)
+    MS("split-slice-timeout-return-skips-save", "C27.3", RUN_SLIP,
+       note="seeded C27-I: in the extracted _run_slice 'except TimeSliceExceeded: return False' leaves before save_state(); "
+            "the state file is written only when a slice completes the cycle, a process killed between two slices "
+            "re-processes the buckets of the unsaved slices"),
+    MS("benign-split-slice-faithful", None, RUN_FAITHFUL,
+       note="the same refactor done faithfully: flag in both branches, save_state() after the try, return the flag"),
+    MS("benign-split-slice-save-in-handler", None, RUN_SAVE_IN_HANDLER,
+       note="early return kept, but the handler saves first"),
+    MS("benign-split-slice-caller-saves", None, RUN_NO_SAVE,
+       call="        finished_cycle = self._run_slice(start_slice)\n        self.save_state()\n",
+       note="the helper only crawls and reports; start_slice saves after it on both outcomes"),
+    MS("split-slice-caller-saves-finished-only", "C27.3", RUN_NO_SAVE,
+       call="        finished_cycle = self._run_slice(start_slice)\n        if finished_cycle:\n            self.save_state()\n",
+       note="a different edit with the same effect: the save sits in start_slice, but only behind the 'cycle finished' flag"),
+    MS("benign-split-slice-each-saves-its-case", None,
+       "        try:\n            self.start_current_prefix(start_slice)\n            self.save_state()\n            return True\n"
+       "        except TimeSliceExceeded:\n            return False\n",
+       call="        finished_cycle = self._run_slice(start_slice)\n        if not finished_cycle:\n            self.save_state()\n",
+       note="the helper saves a completed cycle, start_slice saves an interrupted slice: the caller's test on the returned "
+            "flag is paired with the helper path that returns that flag"),
+    MS("split-slice-both-save-the-same-case", "C27.3",
+       "        try:\n            self.start_current_prefix(start_slice)\n            self.save_state()\n            return True\n"
+       "        except TimeSliceExceeded:\n            return False\n",
+       call="        finished_cycle = self._run_slice(start_slice)\n        if finished_cycle:\n            self.save_state()\n",
+       note="the same two saves with the caller's test the wrong way round: an interrupted slice is saved by neither"),
+    M("slice-save-in-finally", F, SLICE_TRY, SLICE_TRY.replace("        self.save_state()\n", "        finally:\n            self.save_state()\n"),
+      "ANALYSIS-ERROR", note="try/finally in the slice is not followed: fail closed (the code itself is sound)"),
+    MS("split-slice-save-inside-try-body", "C27.3",
+       "        try:\n            self.start_current_prefix(start_slice)\n            self.save_state()\n            return True\n"
+       "        except TimeSliceExceeded:\n            return False\n"),
+    MS("split-slice-timeslice-propagates", "C27.3", RUN_NO_TRY,
+       note="the helper lost its try: TimeSliceExceeded leaves _run_slice and start_slice - no save, no re-arm"),
+    MS("benign-split-slice-caller-catches", None, RUN_NO_TRY,
+       call="        try:\n            finished_cycle = self._run_slice(start_slice)\n        except TimeSliceExceeded:\n"
+            "            finished_cycle = False\n            self.save_state()\n",
+       note="the helper crawls and saves without a try of its own; TimeSliceExceeded propagates to start_slice, which "
+            "catches it there and saves"),
+    MS("split-slice-caller-catches-no-save", "C27.3", RUN_NO_TRY,
+       call="        try:\n            finished_cycle = self._run_slice(start_slice)\n        except TimeSliceExceeded:\n"
+            "            finished_cycle = False\n"),
+    MS("benign-split-slice-schedule-in-helper", None, RUN_FAITHFUL,
+       schedule="        self._schedule_next(now, sleep_time, finished_cycle)\n",
+       extra="\n    def _schedule_next(self, now, sleep_time, finished_cycle):\n" + SLICE_SCHEDULE,
+       note="the re-arm moved into a helper of its own"),
+    MS("split-slice-schedule-helper-unfinished-only", "C27.3", RUN_FAITHFUL,
+       schedule="        self._schedule_next(now, sleep_time, finished_cycle)\n",
+       extra="\n    def _schedule_next(self, now, sleep_time, finished_cycle):\n"
+             + SLICE_SCHEDULE.replace("        self.timer = reactor.callLater(sleep_time, self.start_slice)\n",
+                                      "        if not finished_cycle:\n"
+                                      "            self.timer = reactor.callLater(sleep_time, self.start_slice)\n"),
+       note="sibling slip in the other half of the slice: the helper re-arms only while a cycle is unfinished"),
+    MS("split-slice-helper-raises-after-crawl", "C27.3",
+       RUN_FAITHFUL.replace("        self.save_state()\n", "        if not self.running:\n            raise RuntimeError(\"stopped\")\n        self.save_state()\n"),
+       note="an explicit raise between the crawl step and the save"),
+    M("split-slice-sleep-helper-reads-callers-local", F, SLICE_TRY, split_slice(RUN_FAITHFUL)[1], "C27.6",
+      edits=split_slice(RUN_FAITHFUL)[2][:1] + [(F, SLICE_TAIL, "            sleep_time = max(sleep_time, self.minimum_cycle_time)\n"
+                                                 "        self.next_wake_time = now + sleep_time\n        return sleep_time\n")],
+      note="a statement moved into the extracted helper still reads start_slice's local 'now': NameError in every slice, "
+           "after the save and before the timer is re-armed"),
+    M("split-slice-expirer-overrides-helper", F, SLICE_TRY, split_slice(RUN_FAITHFUL)[1], "C27.3",
+      edits=split_slice(RUN_FAITHFUL)[2] + [("src/allmydata/storage/expirer.py", "    def stat(self, fn):\n        return os.stat(fn)\n",
+             "    def stat(self, fn):\n        return os.stat(fn)\n\n    def _run_slice(self, start_slice):\n"
+             "        try:\n            self.start_current_prefix(start_slice)\n        except TimeSliceExceeded:\n"
+             "            return False\n        return True\n")],
+      note="the lease crawler replaces the helper that saves"),
     # ---- C27.1 progress markers
     M("bucket-marker-before-work", F,
       "            self.process_bucket(cycle, prefix, prefixdir, bucket)\n            self.state[\"last-complete-bucket\"] = bucket\n",
